@@ -13,6 +13,13 @@ func (e StdEng) StackDense(t DenseTensor, axis int, others ...DenseTensor) (retV
 		return
 	}
 
+	for _, ot := range others {
+		if !ot.Shape().Eq(t.Shape()) || ot.Dims() != opdims {
+			err = errors.Errorf(shapeMismatch, t.Shape(), ot.Shape())
+			return
+		}
+	}
+
 	newShape := Shape(BorrowInts(opdims + 1))
 	newShape[axis] = len(others) + 1
 	shape := t.Shape()
